@@ -191,11 +191,9 @@ func opcodeAtomic(high byte, mid byte, low byte) opcode.Opcode {
 }
 
 func addrAddImm(a model.Addr, imm int32) model.Addr {
-	if imm >= 0 {
-		return a + model.Addr(imm)
-	} else {
-		return a - model.Addr(-imm)
-	}
+	// Negative imm is converted to its two's complement, so the wrapping
+	// addition subtracts. Negation of imm would overflow for its minimum.
+	return a + model.Addr(int64(imm))
 }
 
 // immConst returns an immediate value of i sign extended to width w.
